@@ -1202,7 +1202,12 @@ class t2grid(object):
                     orignames = names[::-1]
                     if orignames in self.connection:
                         con = self.connection[orignames]
+                        # reverse connection, keeping each block's own distance
+                        # to the interface and the sense of the gravity cosine:
                         con.block = con.block[::-1]
+                        con.distance = con.distance[::-1]
+                        if con.dircos: con.dircos = -con.dircos
+                        con.nad1, con.nad2 = con.nad2, con.nad1
                         for blk in con.block:
                             blk.connection_name.remove(orignames)
                             blk.connection_name.add(names)
